@@ -440,7 +440,7 @@ pub fn random_cfg(rng: &mut StdRng, flavours: &[&str], policies: &[&str]) -> Cfg
         maxmem = 7;
     }
     let w = if policy == "tlru" {
-        pick(rng, &["none", "0.1", "0.3", "1", "1.5", "3"]).to_string()
+        pick(rng, &["none", "0.1", "0.3", "1", "1.5", "3", "5000"]).to_string()
     } else {
         "none".to_string()
     };
